@@ -1,2 +1,225 @@
-import Sc3Verif.C17.Model
+/-
+C17 — Client objects speak the server command protocol and keep ids consistent.
+Property theorems only (helper lemmas are in `Lemmas.lean`).
+-/
+import Sc3Verif.C17.Lemmas
 import Sc3Verif.C17.GenActions
+import Sc3Verif.C16.Props
+namespace Sc3Verif.C17
+
+/-! ## `with server.bind():` -/
+
+/-- `with s.bind(): body` as a history -/
+abbrev blockOps (body : List Op) : List Op := Op.bind :: (body ++ [Op.endBind])
+
+/-- what a finished top-level block puts on the wire: one bundle, at the latency of the server,
+    with the messages the calls issue, in issue order (nothing if no message was issued) -/
+def blockSent (c : Core) (body : List Op) : List Packet :=
+  bundleOf (c.runPlain body).1.latency (issued (c.runPlain body).2)
+
+/-- Commands issued inside a bind block reach the wire as ONE bundle (time = server latency), in
+    issue order, when the block exits — and nothing reaches the wire before.  `body` is any
+    sequence of client calls none of which raises; what each call "issues" is what it sends when
+    run without the block (`runPlain`, the unbound twin). -/
+theorem bind_one_bundle_in_order (cl : Client) (hs : cl.stack = []) (hk : cl.skipDepth = 0)
+    (body : List Op) (hp : ∀ op ∈ body, op.plain = true)
+    (hr : ∀ r ∈ (cl.core.runPlain body).2, r.1.raises = false) :
+    (cl.run (blockOps body)).1.wire = cl.wire ++ blockSent cl.core body ∧
+    (cl.run (blockOps body)).1.core = (cl.core.runPlain body).1 ∧
+    (cl.run (blockOps body)).1.stack = [] ∧ (cl.run (blockOps body)).1.skipDepth = 0 ∧
+    (cl.run (blockOps body)).2 = (Status.ok, []) :: (cl.core.runPlain body).2.map (fun x => (x.1, []))
+        ++ [(Status.ok, blockSent cl.core body)] := by
+  unfold blockOps blockSent
+  have hb : cl.step .bind = ({ cl with stack := [[]] }, .ok, []) := by
+    unfold Client.step; rw [if_neg (by omega)]; simp [hs]
+  simp only [Client.run, hb]
+  have ha := run_append { cl with stack := [[]] } body [Op.endBind]
+  have hi := run_plain_in_block { cl with stack := [[]] } [] [] rfl hk body hp hr
+  simp only [List.nil_append] at hi
+  obtain ⟨h1, h2, h3, h4, h5⟩ := hi
+  have he : ((Client.run { cl with stack := [[]] } body).1).step .endBind =
+      ({ (Client.run { cl with stack := [[]] } body).1 with
+           stack := [],
+           wire := cl.wire ++ bundleOf (cl.core.runPlain body).1.latency (issued (cl.core.runPlain body).2) },
+       .ok, bundleOf (cl.core.runPlain body).1.latency (issued (cl.core.runPlain body).2)) := by
+    unfold Client.step
+    rw [if_neg (by omega), h2]
+    simp only [h1, h4, bundleOf]
+  rw [ha.1, ha.2]
+  simp only [Client.run, he, h5]
+  refine ⟨trivial, h1, trivial, h3, by simp⟩
+
+/-- The same calls without the block send the same messages one by one: the bundle of
+    `bind_one_bundle_in_order` contains exactly the messages of these packets, in order. -/
+theorem unbound_sends_each (cl : Client) (hs : cl.stack = []) (hk : cl.skipDepth = 0)
+    (body : List Op) (hp : ∀ op ∈ body, op.plain = true) :
+    (cl.run body).1.wire = cl.wire ++ (cl.core.runPlain body).2.flatMap (·.2) ∧
+    collect ((cl.core.runPlain body).2.flatMap (·.2)) = issued (cl.core.runPlain body).2 ∧
+    (cl.run body).1.core = (cl.core.runPlain body).1 := by
+  have := run_plain_top cl hs hk body hp
+  refine ⟨this.2.2.2.1, ?_, this.1⟩
+  generalize (cl.core.runPlain body).2 = rs
+  induction rs with
+  | nil => rfl
+  | cons r rs ih => simp only [List.flatMap_cons, collect, issued] at ih ⊢; rw [List.flatMap_append, ih]
+
+/-- A block nested in another block sends nothing by itself: on exit its messages join the
+    enclosing block's collector, after what was issued there before. -/
+theorem bind_nested_appends (cl : Client) (top : List Msg) (rest : List (List Msg))
+    (hs : cl.stack = top :: rest) (hk : cl.skipDepth = 0)
+    (body : List Op) (hp : ∀ op ∈ body, op.plain = true)
+    (hr : ∀ r ∈ (cl.core.runPlain body).2, r.1.raises = false) :
+    (cl.run (blockOps body)).1.wire = cl.wire ∧
+    (cl.run (blockOps body)).1.stack = (top ++ issued (cl.core.runPlain body).2) :: rest ∧
+    (cl.run (blockOps body)).1.core = (cl.core.runPlain body).1 ∧
+    (cl.run (blockOps body)).1.skipDepth = 0 ∧ ∀ x ∈ (cl.run (blockOps body)).2, x.2 = [] := by
+  unfold blockOps
+  have hb : cl.step .bind = ({ cl with stack := [] :: top :: rest }, .ok, []) := by
+    unfold Client.step; rw [if_neg (by omega)]; simp [hs]
+  simp only [Client.run, hb]
+  have ha := run_append { cl with stack := [] :: top :: rest } body [Op.endBind]
+  have hi := run_plain_in_block { cl with stack := [] :: top :: rest } [] (top :: rest) rfl hk body hp hr
+  simp only [List.nil_append] at hi
+  obtain ⟨h1, h2, h3, h4, h5⟩ := hi
+  have he : ((Client.run { cl with stack := [] :: top :: rest } body).1).step .endBind =
+      ({ (Client.run { cl with stack := [] :: top :: rest } body).1 with
+           stack := (top ++ issued (cl.core.runPlain body).2) :: rest }, .ok, []) := by
+    unfold Client.step
+    rw [if_neg (by omega), h2]
+  rw [ha.1, ha.2]
+  simp only [Client.run, he, h5]
+  refine ⟨h4, trivial, h1, h3, ?_⟩
+  intro x hx
+  simp only [List.mem_cons, List.mem_append, List.mem_map, List.not_mem_nil, or_false] at hx
+  rcases hx with rfl | ⟨y, _, rfl⟩ | rfl <;> rfl
+
+/-- If a call of the block raises (or the block body raises by itself: `Op.raise`), NOTHING of
+    the block is sent: neither what was issued before the exception nor anything after it; the
+    calls after the exception are not executed; the state changes of the calls before it stay. -/
+theorem bind_raises_sends_nothing (cl : Client) (hs : cl.stack = []) (hk : cl.skipDepth = 0)
+    (pre post : List Op) (opR : Op)
+    (hp : ∀ op ∈ pre, op.plain = true) (hq : ∀ op ∈ post, op.plain = true)
+    (hr : ∀ r ∈ (cl.core.runPlain pre).2, r.1.raises = false)
+    (hR : opR.plain = true ∨ opR = .raise)
+    (hraise : ((cl.core.runPlain pre).1.stepCore opR).2.1.raises = true) :
+    (cl.run (blockOps (pre ++ opR :: post))).1.wire = cl.wire ∧
+    (cl.run (blockOps (pre ++ opR :: post))).1.stack = [] ∧
+    (cl.run (blockOps (pre ++ opR :: post))).1.skipDepth = 0 ∧
+    (cl.run (blockOps (pre ++ opR :: post))).1.core = ((cl.core.runPlain pre).1.stepCore opR).1 ∧
+    ∀ x ∈ (cl.run (blockOps (pre ++ opR :: post))).2, x.2 = [] := by
+  unfold blockOps
+  have hb : cl.step .bind = ({ cl with stack := [[]] }, .ok, []) := by
+    unfold Client.step; rw [if_neg (by omega)]; simp [hs]
+  simp only [Client.run, hb]
+  have e : (pre ++ opR :: post) ++ [Op.endBind] = pre ++ ([opR] ++ (post ++ [Op.endBind])) := by simp
+  rw [e]
+  have ha := run_append { cl with stack := [[]] } pre ([opR] ++ (post ++ [Op.endBind]))
+  have hi := run_plain_in_block { cl with stack := [[]] } [] [] rfl hk pre hp hr
+  simp only [List.nil_append] at hi
+  obtain ⟨h1, h2, h3, h4, h5⟩ := hi
+  generalize hc1 : (Client.run { cl with stack := [[]] } pre).1 = c1 at *
+  -- the raising call
+  have hR' : c1.step opR =
+      ({ c1 with core := (c1.core.stepCore opR).1, stack := [], skipDepth := 1 },
+       (c1.core.stepCore opR).2.1, []) := by
+    unfold Client.step
+    rw [if_neg (by omega)]
+    rw [h1] at *
+    rcases hR with hpl | rfl
+    · cases opR <;> simp [Op.plain] at hpl <;> simp [h2, hraise, Client.unwind]
+    · simp [h2, Core.stepCore, Status.raises, Client.unwind]
+  generalize hc2 : ({ c1 with core := (c1.core.stepCore opR).1, stack := [], skipDepth := 1 } : Client) = c2 at *
+  have hb2 := run_append c2 post [Op.endBind]
+  have hsk := run_plain_skipping c2 (by rw [← hc2]; exact Nat.one_pos) post hq
+  have he : c2.step .endBind = ({ c2 with skipDepth := 0 }, .raised, []) := by
+    unfold Client.step
+    rw [if_pos (by rw [← hc2]; exact Nat.one_pos)]
+    simp [← hc2]
+  have hrun : (c1.run ([opR] ++ (post ++ [Op.endBind]))).1 = { c2 with skipDepth := 0 } ∧
+      ∀ x ∈ (c1.run ([opR] ++ (post ++ [Op.endBind]))).2, x.2 = [] := by
+    simp only [List.singleton_append, Client.run, hR']
+    rw [hb2.1, hb2.2, hsk.1, hsk.2]
+    simp only [Client.run, he]
+    refine ⟨trivial, ?_⟩
+    intro x hx
+    simp only [List.mem_cons, List.mem_append, List.mem_map, List.not_mem_nil, or_false] at hx
+    rcases hx with rfl | ⟨y, _, rfl⟩ | rfl <;> rfl
+  rw [ha.1, ha.2, hrun.1]
+  refine ⟨?_, ?_, rfl, ?_, ?_⟩
+  · rw [← hc2]; exact h4
+  · rw [← hc2]
+  · rw [← hc2, h1]
+  · intro x hx
+    simp only [List.mem_cons, List.mem_append] at hx
+    rcases hx with rfl | hx | hx
+    · rfl
+    · rw [h5] at hx
+      simp only [List.mem_map] at hx
+      obtain ⟨y, _, rfl⟩ := hx; rfl
+    · exact hrun.2 x hx
+
+/-- every message the client has issued so far and not discarded: what is on the wire, then what
+    waits in the open blocks, outermost first -/
+def allMsgs (cl : Client) : List Msg := collect cl.wire ++ cl.stack.reverse.flatten
+
+/-- For EVERY history of client calls and (arbitrarily nested, even unbalanced) `bind`/`end`
+    tokens in which nothing raises: binding only regroups.  No message is lost, duplicated or
+    reordered, and the client state is the one of the unbound run. -/
+theorem bind_preserves_issue_order (cl : Client) (hk : cl.skipDepth = 0) (ops : List Op)
+    (hno : Op.raise ∉ ops)
+    (hr : ∀ r ∈ (cl.core.runPlain (ops.filter Op.plain)).2, r.1.raises = false) :
+    allMsgs (cl.run ops).1 = allMsgs cl ++ issued (cl.core.runPlain (ops.filter Op.plain)).2 ∧
+    (cl.run ops).1.core = (cl.core.runPlain (ops.filter Op.plain)).1 ∧
+    (cl.run ops).1.skipDepth = 0 := by
+  induction ops generalizing cl with
+  | nil => simp [Client.run, Core.runPlain, issued, hk]
+  | cons op ops ih =>
+    have hno' : Op.raise ∉ ops := fun h => hno (by simp [h])
+    have hne : op ≠ .raise := fun h => hno (by simp [h])
+    simp only [Client.run]
+    by_cases hpl : op.plain = true
+    · -- an ordinary call
+      have hf : (op :: ops).filter Op.plain = op :: ops.filter Op.plain := by simp [hpl]
+      rw [hf] at hr ⊢
+      simp only [Core.runPlain, List.mem_cons, forall_eq_or_imp] at hr
+      obtain ⟨hr1, hr2⟩ := hr
+      have hstep : (cl.step op).1.core = (cl.core.stepCore op).1 ∧ (cl.step op).1.skipDepth = 0 ∧
+          allMsgs (cl.step op).1 = allMsgs cl ++ collect (cl.core.stepCore op).2.2 := by
+        unfold Client.step
+        rw [if_neg (by omega)]
+        cases hst : cl.stack with
+        | nil => cases op <;> simp [Op.plain] at hpl <;> simp [hst, allMsgs, collect, hk]
+        | cons top rest =>
+          cases op <;> simp [Op.plain] at hpl <;>
+            simp [hst, allMsgs, collect, hk, hr1, List.append_assoc]
+      obtain ⟨h1, h2, h3⟩ := hstep
+      have := ih (cl.step op).1 h2 hno' (by rw [h1]; exact hr2)
+      rw [h1] at this
+      refine ⟨?_, this.2.1, this.2.2⟩
+      rw [this.1, h3]
+      simp [issued, Core.runPlain, List.append_assoc]
+    · -- bind / end
+      have hf : (op :: ops).filter Op.plain = ops.filter Op.plain := by simp [hpl]
+      rw [hf] at hr ⊢
+      have hstep : (cl.step op).1.core = cl.core ∧ (cl.step op).1.skipDepth = 0 ∧
+          allMsgs (cl.step op).1 = allMsgs cl := by
+        unfold Client.step
+        rw [if_neg (by omega)]
+        cases op <;> simp [Op.plain] at hpl
+        · simp [allMsgs, hk]
+        · cases hst : cl.stack with
+          | nil => simp [allMsgs, hst, hk]
+          | cons top rest =>
+            cases rest with
+            | nil =>
+              by_cases he : top.isEmpty
+              · simp [allMsgs, hst, hk, he, collect, List.isEmpty_iff.mp he]
+              · simp [allMsgs, hst, hk, he, collect, Packet.msgs]
+            | cons outer rest' => simp [allMsgs, hst, hk, List.append_assoc]
+        · exact absurd rfl hne
+      obtain ⟨h1, h2, h3⟩ := hstep
+      have := ih (cl.step op).1 h2 hno' (by rw [h1]; exact hr)
+      rw [h1, h3] at this
+      exact this
+
+end Sc3Verif.C17
